@@ -482,6 +482,30 @@ def oracle(case):
         P0, P1, P2 = (np.array(geo["P"][k], dtype=float) for k in range(3))
         want = [P0, P1, P2 + P1 - P0, P2]
         if np.max(np.abs(pts - np.array(want))) > 1e-12: bad("corners", "vertices are not the requested corners")
+    if g == "flat_ring" and nV == I[0] * I[1] + 2 and not out:
+        # documented shape: apex at the origin, rim on the unit circle of the plane z = 0, every triangle with apex angle
+        # (2*pi - defect)/N, turning counter-clockwise (so n_cover covers span n_cover*(2*pi - defect))
+        want = max(min(geo["defect"], 2 * math.pi - 0.01), 0.)
+        ang = (2 * math.pi - want) / I[0]
+        if np.max(np.abs(pts[0])) > 1e-12 or np.max(np.abs(np.linalg.norm(pts[1:], axis=1) - 1)) > 1e-9 or np.max(np.abs(pts[:, 2])) > 0:
+            bad("on-unit-circle", "rim vertices are not on the unit circle of the plane z=0 around the apex")
+        for f in F:
+            a, b = pts[f[1]], pts[f[2]]
+            th = math.atan2(a[0] * b[1] - a[1] * b[0], a[0] * b[0] + a[1] * b[1])
+            if abs((th - ang + math.pi) % (2 * math.pi) - math.pi) > 1e-9:
+                bad("apex-angle", "a triangle of the flat ring does not have the apex angle (2*pi - defect)/N", f"face {f}: {th} vs {ang}")
+                break
+    if g == "ring" and nV >= I[0] * I[1] + 1 and not out:
+        # rim vertex k (1-based) sits at angle 2*pi*(k-1)/N on the unit circle of the plane z = 0
+        nrim = I[0] * I[1]
+        for k in range(1, nrim + 1):
+            t = 2 * math.pi * (k - 1) / I[0]
+            if abs(pts[k][0] - math.cos(t)) > 1e-9 or abs(pts[k][1] - math.sin(t)) > 1e-9 or pts[k][2] != 0:
+                bad("rim-position", "a rim vertex of the ring is not at its angle on the unit circle", f"vertex {k}"); break
+        if Bo[0] and nV == nrim + 2 and np.max(np.abs(pts[nrim + 1] - pts[1])) > 0:
+            bad("rim-position", "the closing vertex of the open ring is not a copy of the first rim vertex")
+        if abs(pts[0][0]) > 1e-9 or abs(pts[0][1]) > 1e-9:
+            bad("apex-on-axis", "the apex of the ring is not on the axis")
     if g == "ring" and I[1] == 1 and nV >= I[0] + 1 and not out:
         # apex defect = 2*pi - sum of the angles at vertex 0
         tot = 0.0
